@@ -291,6 +291,31 @@ v('C03', 'fire', SI, """        velocity_n = util.mv_prod(
             mat_en, v_i_spline(time) - np.cross(earth_rate_i, r_i), True)""", 'seeded C03: wrong frame matrix in the position-only form')
 
 
+v('C09', 'silent', F, """    measurement_times = np.hstack([np.empty(0)] + [
+        np.asarray(measurement.data.index) for measurement in measurements])
+    measurement_times = np.sort(np.unique(measurement_times))
+
+    start_time = initial_pva.name""", """    measurement_times = np.unique(np.hstack([np.empty(0)] + [
+        np.asarray(measurement.data.index) for measurement in measurements]))
+
+    start_time = initial_pva.name""", 'np.unique already sorts')
+v('C09', 'fire', F, """    measurement_times = np.hstack([np.empty(0)] + [
+        np.asarray(measurement.data.index) for measurement in measurements])
+    measurement_times = np.sort(np.unique(measurement_times))
+
+    start_time = initial_pva.name""", """    measurement_times = np.sort(np.hstack([np.empty(0)] + [
+        np.unique(measurement.data.index) for measurement in measurements]))
+
+    start_time = initial_pva.name""", 'seeded C09: de-duplication per stream only')
+v('C08', 'fire', KA, 'H = np.zeros((2 * n, 2 * n))', 'H = np.zeros((2 * n, 2 * n), dtype=F.dtype)', 'seeded C08: work matrix inherits the dtype of F')
+v('C19 C16', 'fire', T, 'result = np.empty_like(diff, dtype=float)', 'result = np.empty_like(diff)', 'F7 repair reverted')
+v('C13 C02', 'fire', S, """        self.lla[0] = self.initial_pva[LLA_COLS]
+        self.velocity_n[0] = self.initial_pva[VEL_COLS]
+        self.mat_nb[0] = transform.mat_from_rph(self.initial_pva[RPH_COLS])""", """        self.lla[0] = pva[LLA_COLS]
+        self.velocity_n[0] = pva[VEL_COLS]
+        self.mat_nb[0] = transform.mat_from_rph(pva[RPH_COLS])""", 'seeded C13: buffers filled from the raw argument')
+
+
 # ----------------------------------------------------------------------- runner
 def _run_variant(args):
     prop, var, root, check_py = args
